@@ -55,6 +55,12 @@ func checkFit(c Case) error {
 	ex0 := (tx - w) * float64(ax)
 	ey0 := (ty - h) * float64(ay)
 	ex1, ey1 := ex0+w, ey0+h
+	// a result beyond the float32 range (or down among the subnormals) cannot
+	// be returned at all: outside "finite positive sizes", no verdict
+	if m := math.Max(math.Max(math.Abs(ex0), math.Abs(ey0)), math.Max(math.Abs(ex1), math.Abs(ey1))); m > 1e37 || math.Max(w, h) < 1e-36 {
+		outOfRange++
+		return nil
+	}
 	scale := math.Max(math.Max(tx, ty), math.Max(w, h))
 	tol := 32 * eps32 * scale
 	chk := func(name string, got float32, want float64) error {
@@ -86,6 +92,8 @@ func checkFit(c Case) error {
 	}
 	return nil
 }
+
+var outOfRange int64
 
 var subFit = harness.Define("fit", "viewBox (finite positive size) x target size over 12 decades x alignment in {0,.5,1} or uniform [0,1] x meet/slice; non-trivial = viewBox and target aspect ratios differ by more than 1% (otherwise meet = slice = target)", checkFit)
 
@@ -187,6 +195,7 @@ func TestFitRandom(t *testing.T) {
 		subFit.See(c, nt, h, labels...)
 		subFit.Run(t, c)
 	})
+	subFit.Label("no-verdict:result-outside-float32-range", outOfRange)
 }
 
 // Boundary table: the documented constants and a few exact configurations.
